@@ -67,11 +67,11 @@ def main():
             env2.pop("XEOFS_VERIF", None)
             env2["PYTHONDONTWRITEBYTECODE"] = "1"
             t0 = time.time()
-            rct, ot = sh([PY, "-m", "pytest", "-q", "-p", "no:cacheprovider", "--timeout=900", "-x"], cwd=wt, env=env2, timeout=3600)
+            rct, ot = sh([PY, "-m", "pytest", "-q", "-p", "no:cacheprovider", "--timeout=900", "-x", "-n", "3"], cwd=wt, env=env2, timeout=3600)
             m = re.search(r"(\d+) passed", ot)
             res["tests_exit"] = rct
             res["tests_passed"] = int(m.group(1)) if m else None
-            res["tests_cmd"] = "cd <worktree> && /venv/bin/python -m pytest -q -p no:cacheprovider --timeout=900 -x"
+            res["tests_cmd"] = "cd <worktree> && /venv/bin/python -m pytest -q -p no:cacheprovider --timeout=900 -x -n 3"
             res["tests_wall_s"] = round(time.time() - t0)
         env3 = dict(os.environ)
         env3["XEOFS_REPO"] = wt
